@@ -310,3 +310,14 @@ SPECS["C13"] = dict(
              params=dict(quick=dict(ops=2), thorough=dict(ops=3)), witnesses=["done", "writes-still-pending-at-save"]),
     ],
 )
+
+SPECS["C17"] = dict(
+    level="model_checking",
+    outside="trees other than the fixed shape (2 files, 2 directories, 1 empty directory, 1 file with a special name, up to 2 links); writable collection mounts (JSON decoding of .arvados#collection); special files; directories that are themselves reached through links when resolving '..' (lexical cleaning is used by the reference too)",
+    assumptions=["host output directory is a tree in the filesystem model; contents symbolic", "fake Keep and API stubs (interface-level)",
+                 "first link target ranges over 16 relative/absolute/outside/dot-dot/dangling/cyclic/collection/secret forms plus '/out/'+2 symbolic bytes over {. / a d}+'/x'; a second link inside a subdirectory over 4 forms",
+                 "expected output per link form written by hand from the statement (container-namespace resolution)"],
+    runs=[
+        dict(name="copy", pkg="lib/crunchrun", harness=["crunchrun/c17_copier.go"], entry="GosymH_C17_copy", replay="engine", witnesses=["copied", "copy-refused"]),
+    ],
+)
